@@ -699,6 +699,10 @@ func runC20(p *core.Prog, r *core.Report, tier string) {
 	r.Count("fan-out goroutine/channel pairs", nFan)
 	r.Floor("C20.3 fan-out goroutine/channel pairs", nFan, 20)
 	r.Floor("C20.4 strategy fan-out contexts", nCtxFan, 12)
+
+	// ---------- (5) wait groups balance everywhere: a goroutine stuck in Wait (and whatever it holds) is never freed ----------
+	nWG := checkWaitGroupBalance(p, r, "C20.5", p.SrcFuncs(), "the waiting goroutine and everything it references stay for ever, one more per call")
+	r.Floor("C20.5 wait group Add sites", nWG, 4)
 }
 
 func dedupe(in []string) []string {
